@@ -318,7 +318,7 @@ Report ==
   /\ ((ev.ev = "obs" /\ ev.ok /\ life[ev.i] = "up") =>
         /\ ((~StatusShowsConfigInForceP' /\ api'[ev.i] \notin {inforce'[ev.i], "-"}) =>
               N("violation", "C17_StatusShowsConfigInForce", [i |-> ev.i, status_shows |-> api'[ev.i], in_force |-> inforce'[ev.i], last_reload |-> lastrl'[ev.i]]))
-        /\ ((~ReceiversAgreeP' /\ rcv'[ev.i] # "-" /\ grp'[ev.i] # "-" /\ rcv'[ev.i] # grp'[ev.i]) =>
+        /\ ((~ReceiversAgreeP' /\ rcv'[ev.i] # "-" /\ grp'[ev.i] \notin {"-", "!"} /\ rcv'[ev.i] # grp'[ev.i]) =>
               N("violation", "C07_ReceiversAgree", [i |-> ev.i, api_receivers |-> rcv'[ev.i], dispatcher_groups |-> grp'[ev.i], in_force |-> inforce'[ev.i], last_reload |-> lastrl'[ev.i]])))
   /\ ((ev.ev = "reload" /\ ev.kind = "good" /\ ev.code # 200) => N("doubt", "good_configuration_refused", [i |-> ev.i, c |-> ev.c, code |-> ev.code]))
   /\ ((ev.ev = "reload" /\ ev.kind # "good" /\ ev.code = 200) => N("doubt", "bad_configuration_accepted", [i |-> ev.i, c |-> ev.c, how |-> ev.how]))
@@ -328,6 +328,7 @@ Report ==
         /\ (~ReadyP(par)' => \A i \in Unready : (i = ev.i) =>
               IF ev.ok THEN N("violation", "C08_ReadyEventually", [i |-> i, up_since |-> upAt'[i], settle_timeout |-> par'.st])
               ELSE N("doubt", "not_ready_and_not_answering", [i |-> i])))
+  /\ (ev.ev = "end" => \A i \in Inst : (life'[i] = "up" /\ ~resp'[i]) => N("doubt", "instance_not_answering_its_api_at_the_end", [i |-> i]))
   /\ (ev.ev = "abort" => N("doubt", "harness", [why |-> ev.why]))
 
 TraceNext == TraceStep /\ Report
